@@ -499,7 +499,8 @@ func operatorLikeNames(t *rapid.T, tree *m.Node, u *Universe) {
 	for _, v := range u.Vars {
 		used[v.Name] = true
 	}
-	pool := []string{"mod", "in", "all", "date", "version", "add", "map", "any", "not", "overlap", "between", "eq", "filter", "xor", "t_date", "let"}
+	pool := []string{"mod", "in", "all", "date", "version", "add", "map", "any", "not", "overlap", "between", "eq", "filter", "xor", "t_date", "let",
+		"c_sum", "c_cat", "c_id", "andn", "orn", "c_cnt", "c_sum", "c_cat"} // (custom operators too: two of them accept zero operands)
 	ren := map[string]string{}
 	for i := range u.Vars {
 		if rapid.Bool().Draw(t, "oplike_var") {
